@@ -34,7 +34,7 @@ NOT_DECIDED = ['the number of rows, one row per multiple, strict monotonicity, t
 
 def run(prog: Program, rep, thorough: bool) -> None:
     A.reset()
-    rep.rule('C03.R1', 'default step = range / 10; slots', 3)
+    rep.rule('C03.R1', 'default step = range / 10; slots', 4)
     rep.rule('C03.R2', 'range row exactly on its multiple', 4)
     rep.rule('C03.R3', 'muzzle row is the initial state', 2)
     rep.rule('C03.R4', 'time-step rows: due test and clock', 2)
@@ -86,6 +86,23 @@ def run(prog: Program, rep, thorough: bool) -> None:
     else:
         rep.fail('C03.R1', ifm.path, fire.node.lineno, fire.qualname, 'given-step',
                  'a step given as a quantity does not reach the solver unchanged')
+    # a bare-number step means that number in the preferred distance unit, whatever unit the range is displayed in
+    st, calls_b = run_fire(lambda st_: Scalar(A.sym('sb')))
+    okb = False
+    detail_b = ''
+    if calls_b and all(len(c_[0]) >= 3 for c_ in calls_b):
+        # two paths: sb == 0 is the declared "not given" sentinel (default step), otherwise the number is coerced
+        raws = [C.raw_of(ev, st, c_[0][2]) for c_ in calls_b]
+        detail_b = repr(raws)
+        want_b = A.fn('pref_to_raw[distance]', A.sym('sb'))
+        okb = all(r_ is not None and (r_.equals(want_b) or r_.equals(A.sym('R') / 10)) for r_ in raws) \
+            and any(r_ is not None and r_.equals(want_b) for r_ in raws)
+    if okb:
+        rep.ok('C03.R1', fire.where, 'a bare-number step is read in the preferred distance unit')
+    else:
+        rep.fail('C03.R1', ifm.path, fire.node.lineno, fire.qualname, 'bare-step',
+                 f'a bare-number step sb reaches the solver as {detail_b}; the statement (and C07) read it in the preferred '
+                 f'distance unit, independently of the unit the range happens to be displayed in')
     # slots in trajectory() -> _integrate checked by C11.R1; here: fire's extra_data / time_step forwarded
     a = calls[0][0] if calls else []
     if len(a) >= 5 and isinstance(a[3], Const) and a[3].value is False and isinstance(a[4], Scalar) and a[4].rf.is_zero():
@@ -224,6 +241,8 @@ def run(prog: Program, rep, thorough: bool) -> None:
 
     def cnt_hook(ev_, func, args, kwargs, st_, self_val):
         seen_calls.append(args[0] if args else None)
+        if isinstance(self_val, Inst):
+            st_.heap[self_val.oid]['$time_checked'] = Const(True)
         return NONE
     ev5 = Evaluator(prog, hooks={'call:_TrajectoryDataFilter.check_next_time': cnt_hook},
                     opaque={'check_zero_crossing', 'check_mach_crossing'})
@@ -249,7 +268,23 @@ def run(prog: Program, rep, thorough: bool) -> None:
     #                                            that is not restarted only produces more rows)
     rep.extra['time_check_called_with_current_time'] = bool(called_with_time)   # reported: one step of lag is inside
     #                                            the "plus two integration steps" of the statement
-    if seen_calls:
+    # on every path on which no range row is due and the time step is positive, the elapsed time must be checked
+    skipped = []
+    for path, leaf in leaves(tree5):
+        if leaf.kind == 'raise':
+            continue
+        h5 = leaf.state.heap[flt5.oid]
+        nrd5 = h5.get('next_record_distance')
+        advanced = isinstance(nrd5, Scalar) and not nrd5.rf.equals(A.sym('nrd'))
+        ts_pos = any(t.kind == 'pos' and t.rf is not None and t.rf.equals(A.sym('ts')) and pol for t, pol in path)
+        ts_tested = any(t.rf is not None and 'ts' in t.rf.symbols() for t, _pol in path)
+        if not advanced and '$time_checked' not in h5 and (ts_pos or not ts_tested):
+            skipped.append(path)
+    if seen_calls and skipped:
+        rep.fail('C03.R4', tc.path, sr.node.lineno, sr.qualname, 'time-check-skipped',
+                 'should_record has a path on which no range row is due and the elapsed time is not checked although a time '
+                 'step may be set (' + ' and '.join(('' if pol else 'not ') + repr(t) for t, pol in skipped[0][:3]) + '): time rows vanish there')
+    elif seen_calls:
         rep.ok('C03.R4', sr.where, 'when no range row is due and a time step is set, the elapsed time is checked')
     else:
         rep.fail('C03.R4', tc.path, sr.node.lineno, sr.qualname, 'time-clock',
